@@ -190,7 +190,12 @@ EFFECT = [
     "x = a\ny = a[i]\ny.push(w)\nx == a",
     "acc = [[w]]\nacc += [a]\nacc += [a]\nacc[1][i].push(w)\nacc[2] == a",
     "c[0] = a\nc[1] = a\nc[0][i].push(w)\nc[1] == a",
+    "x = sess\nx['tags'][i].push(w)",
+    "acc = [[w]]\nacc += [sess]\nacc[1]['tags'][i].push(w)",
+    "c2[zero] = a\nc2[zero][i].push(w)",
+    "c3[one] = a\nc3[one][i].push(w)",
 ]
+MAY_FAIL = (19, 20, 21, 22)          # a refusal (error, nothing stored) is as good as an independent copy
 if isinstance(hlib.PARAM, dict) and "t" in hlib.PARAM:
     prewarm(EFFECT[hlib.PARAM["t"]])
 
@@ -206,9 +211,11 @@ def effect(v0: int, v1: int, v2: int, w: int, i: int, j: int, k: int, after: int
     d = {'p': [v0], 'q': v1}
     c = [0, 0]
     e = {}
-    names = {'a': a, 'd': d, 'c': c, 'e': e, 'i': i, 'j': j, 'k': k, 'w': w}
+    import threading
+    sess = {'tags': a, 'lock': threading.Lock()}          # a host structure that copy.deepcopy cannot copy
+    names = {'a': a, 'd': d, 'c': c, 'e': e, 'i': i, 'j': j, 'k': k, 'w': w, 'sess': sess, 'c2': [], 'c3': [0], 'zero': 0, 'one': 1}
     out = run_eval(EFFECT[t], names, 1000)
-    assert out[0] == 'ok', "template failed"
+    assert out[0] == 'ok' or t in MAY_FAIL, "template failed"
     assert a == [[v0, v1], [v2]] and d == {'p': [v0], 'q': v1}, \
         "a host object changed although only variables assigned from it were mutated"
     if t == 6:
